@@ -129,6 +129,7 @@ def main():
     ap.add_argument("--limit", type=int, default=0)
     ap.add_argument("--jobs", type=int, default=16)
     ap.add_argument("--out", default="")
+    ap.add_argument("--only", default="", help="JSON written by sweep_filter.py: restrict to these mutants")
     ap.add_argument("--seed", type=int, default=int(os.environ.get("VERIF_SEED", "0") or 0))
     a = ap.parse_args()
     files = [f for f in a.files.split(",") if f] or DEFAULT_FILES
@@ -144,6 +145,9 @@ def main():
         if not os.path.exists(path):
             continue
         muts += mutants_of(open(path).read(), rel)
+    if a.only:
+        keep = {tuple(x) for x in json.load(open(a.only))["survivors_passing_suite"]}
+        muts = [m for m in muts if (m[0], m[1], m[2]) in keep]
     if a.limit and len(muts) > a.limit:
         random.Random(a.seed).shuffle(muts)
         muts = muts[: a.limit]
